@@ -320,7 +320,11 @@ def vec_push(it, args, n, f):
         node = it.val_force(args[1])
         key = v.arena.pending_len
         if key is None:
-            raise Unrecognised("arena.push without a preceding len()")
+            # `push(..); len() - 1`: the new slot's index is named now, the following len() is this index + 1
+            v.arena.fresh += 1
+            key = "len(%s)#%d" % (v.arena.name, v.arena.fresh)
+            it.emit("arena_len", table=v.arena.name, key=key)
+            v.arena.last_pushed = key
         it.emit("arena_push", table=v.arena.name, key=key)
         v.arena.fresh_keys.add(key)
         cell = v.arena.node(SymV(key))
@@ -392,6 +396,10 @@ def vec_clear(it, args, n, f):
 def vec_len(it, args, n, f):
     v = vec_of(it, args[0])
     if isinstance(v, ArenaVecV):
+        lp = getattr(v.arena, "last_pushed", None)
+        if lp is not None:
+            v.arena.last_pushed = None
+            return LinV(lp, 1)
         v.arena.fresh += 1
         key = "len(%s)#%d" % (v.arena.name, v.arena.fresh)
         v.arena.pending_len = key
